@@ -29,6 +29,7 @@ import (
 	nm "github.com/polynetwork/poly/native/service/governance/node_manager"
 	rm "github.com/polynetwork/poly/native/service/governance/relayer_manager"
 	scm "github.com/polynetwork/poly/native/service/governance/side_chain_manager"
+	sigm "github.com/polynetwork/poly/native/service/governance/signature_manager"
 	hscom "github.com/polynetwork/poly/native/service/header_sync/common"
 	"github.com/polynetwork/poly/native/service/header_sync/eth"
 	"github.com/polynetwork/poly/native/service/utils"
@@ -43,6 +44,7 @@ type scStep struct {
 	Commit bool   `json:"commit"` // submit after the executions
 	Wall   string `json:"wall"`   // router name when the block carries a header dated in the future
 	Expect string `json:"expect"` // "ok": every transaction must succeed when the block is built (guards the scenario itself)
+	Reps   int    `json:"reps"`   // minimum number of in-process executions (map iteration order is re-randomised per iteration)
 }
 type scenario struct {
 	Name  string   `json:"name"`
@@ -85,7 +87,11 @@ func (c *c16ctx) logExec(sc, label, wall string, stateID, blockID common.Uint256
 func (c *c16ctx) runStep(lg *ledgerkit.Ledger, sc string, st scStep, b *types.Block) {
 	stateID := lg.L.GetCurrentBlockHash()
 	var last store.ExecuteResult
-	for k := 0; k < c.r; k++ {
+	reps := c.r
+	if st.Reps > reps {
+		reps = st.Reps
+	}
+	for k := 0; k < reps; k++ {
 		var res store.ExecuteResult
 		var err error
 		pan := vio.Safe(func() { res, err = lg.L.ExecuteBlock(b) })
@@ -256,7 +262,7 @@ func (c *c16ctx) createNative() (scenario, int64) {
 	n := &natCtx{lg: lg, accts: accts, nonce: 9 << 24}
 	add := func(label string, commit bool, wall, expect string, txs ...*types.Transaction) {
 		b := lg.Build(txs, nil)
-		st := scStep{Label: label, Commit: commit, Wall: wall, Expect: expect, Block: blockHex(b)}
+		st := scStep{Label: label, Commit: commit, Wall: wall, Expect: expect, Block: blockHex(b), Reps: nativeReps}
 		sc.Steps = append(sc.Steps, st)
 		c.runStep(lg, sc.Name, st, b)
 	}
@@ -311,13 +317,13 @@ func (c *c16ctx) createNative() (scenario, int64) {
 	}
 	add("sc:approve-x4", true, "", "ok", apSC...)
 	add("sc:approve-final-x2", true, "", "ok", apSC2...)
-	// fee votes of two validators: the stored record carries NativeService.GetTime() (the block timestamp) and a map
+	// fee votes of three validators (fee-info map and vote-info map with three entries): the stored record carries NativeService.GetTime() (the block timestamp) and a map
 	var fees []*types.Transaction
-	for i, a := range accts[:2] {
+	for i, a := range accts[:3] {
 		p := &scm.UpdateFeeParam{Address: a.Address, ChainId: 6, View: 0, Fee: big.NewInt(int64(10 + 20*i))}
 		fees = append(fees, n.tx(utils.SideChainManagerContractAddress, scm.UPDATE_FEE, ser(p.Serialization), a))
 	}
-	add("sc:update-fee-x2", true, "", "ok", fees...)
+	add("sc:update-fee-x3", true, "", "ok", fees...)
 
 	// relayer registration + approvals
 	relArgs := ser(func(s *common.ZeroCopySink) {
@@ -331,6 +337,49 @@ func (c *c16ctx) createNative() (scenario, int64) {
 	}
 	add("rel:approve-x2", true, "", "ok", apRel[:2]...)
 	add("rel:approve-final", true, "", "ok", apRel[2])
+
+	// ---- records that are serialised from Go maps, each written with several entries --------------------------------
+	// ripple (223) and ont (3) side chains
+	rex := &scm.RippleExtraInfo{Operator: owner.Address, Sequence: 1, Quorum: 2, SignerNum: 3, Pks: [][]byte{{1}, {2}, {3}}, ReserveAmount: big.NewInt(20000000)}
+	add("sc2:register-ripple+ont", true, "", "ok", regSC(223, utils.RIPPLE_ROUTER, "ripple", ser(rex.Serialization)), regSC(3, utils.ONT_ROUTER, "ont", nil))
+	var ap2a, ap2b []*types.Transaction
+	for _, id := range []uint64{223, 3} {
+		for i, a := range accts[:3] {
+			args := ser(func(s *common.ZeroCopySink) { (&scm.ChainidParam{Chainid: id, Address: a.Address}).Serialization(s) })
+			t := n.tx(utils.SideChainManagerContractAddress, scm.APPROVE_REGISTER_SIDE_CHAIN, args, a)
+			if i < 2 {
+				ap2a = append(ap2a, t)
+			} else {
+				ap2b = append(ap2b, t)
+			}
+		}
+	}
+	add("sc2:approve-x4", true, "", "ok", ap2a...)
+	add("sc2:approve-final-x2", true, "", "ok", ap2b...)
+	// AssetBind: asset map and lock-proxy map with six entries, then a second registration that merges three more
+	asset := func(targets ...uint64) *types.Transaction {
+		p := &scm.RegisterAssetParam{OperatorAddress: owner.Address, ChainId: 223, AssetMap: map[uint64][]byte{}, LockProxyMap: map[uint64][]byte{}}
+		for _, t := range targets {
+			p.AssetMap[t] = bytesOf(byte(t), 20)
+			p.LockProxyMap[t] = bytesOf(byte(t)^0xff, 20)
+		}
+		return n.tx(utils.SideChainManagerContractAddress, scm.REGISTER_ASSET, ser(p.Serialization), owner)
+	}
+	add("asset:register-6-targets", true, "", "ok", asset(2, 6, 7, 12, 17, 79))
+	add("asset:register-3-more", true, "", "ok", asset(10, 19, 6))
+	// signature manager: signature sets of two, then the third signer
+	addSig := func(a *account.Account, subject string) *types.Transaction {
+		p := &sigm.AddSignatureParam{Address: a.Address, SideChainID: 223, Subject: []byte(subject), Signature: append([]byte("sig-of-"), a.Address[:]...)}
+		return n.tx(utils.SignatureManagerContractAddress, sigm.ADD_SIGNATURE, ser(p.Serialization), a)
+	}
+	add("sig:add-signature-x2+x2", true, "", "ok", addSig(accts[0], "subject-1"), addSig(accts[1], "subject-1"), addSig(accts[3], "subject-2"), addSig(accts[2], "subject-2"))
+	add("sig:add-signature-third", true, "", "ok", addSig(accts[2], "subject-1"))
+	// BTC redeem registration and transaction parameters: signature maps keyed by the signers' addresses (3-of-4 redeem)
+	rd := newRedeem(4, 3)
+	add("btc:register-redeem-2-sigs", true, "", "ok", n.tx(utils.SideChainManagerContractAddress, scm.REGISTER_REDEEM, rd.registerArgs(0, 1), relayer))
+	add("btc:register-redeem-2-more", true, "", "ok", n.tx(utils.SideChainManagerContractAddress, scm.REGISTER_REDEEM, rd.registerArgs(2, 3), relayer))
+	add("btc:set-tx-param-2-sigs", true, "", "ok", n.tx(utils.SideChainManagerContractAddress, scm.SET_BTC_TX_PARAM, rd.txParamArgs(3, 1), relayer))
+	add("btc:set-tx-param-third", true, "", "ok", n.tx(utils.SideChainManagerContractAddress, scm.SET_BTC_TX_PARAM, rd.txParamArgs(0), relayer))
 
 	// light clients: trust roots (operator witness), header batches, a reorganisation on eth
 	bc := newBscChain(3)
@@ -348,6 +397,7 @@ func (c *c16ctx) createNative() (scenario, int64) {
 	}
 	ec := newEthChain()
 	add("lc:genesis-bsc+eth", true, "", "ok", syncGen(6, bc.genesisJSON()), syncGen(2, ec.genesisJSON()))
+	add("lc:genesis-ont-5-peers", true, "", "ok", syncGen(3, ontGenesis(5)))
 	h201, h202 := bc.next(0), bc.next(0)
 	a1 := ec.child(ec.genesis, 20, 1)
 	a2 := ec.child(a1, 20, 1)
@@ -377,3 +427,7 @@ func (c *c16ctx) createNative() (scenario, int64) {
 }
 
 const futureDelta = 4
+
+// every native-contract block is executed at least this often in each process: records serialised from Go maps show an
+// order dependence only across iterations
+const nativeReps = 20
